@@ -225,3 +225,19 @@ Proof.
     + exists (mkrow 5 2 2 1). cbn. intuition discriminate.
     + exists (mkrow 2 2 2 1). cbn. intuition discriminate.
 Qed.
+
+(* ---- appended: the C13 composition for the validator WITH its cycle test (TracksCyc.v / CtcCycLemmas.v) ---- *)
+From Geff Require TracksCyc TracksCycLemmas CtcCycLemmas.
+
+(* the written graph has no directed cycle (every edge points strictly forward in time) *)
+Theorem C15_graph_acyclic : forall d es, consistent d -> graph_edges (nodes_of (d_frames d)) (table_of d) = Ok es ->
+  TracksCycLemmas.acyclic es.
+Proof. exact CtcCycLemmas.ctc_acyclic. Qed.
+Print Assumptions C15_graph_acyclic.
+
+(* so the whole of validate_tracklets (degree, cycle, connectivity, division/merge, maximality tests, in the order of the
+   code) returns (True, []) on the declared annotation iff no parent has a single child *)
+Theorem C15_tracklets_full_validator : forall d es, consistent d -> graph_edges (nodes_of (d_frames d)) (table_of d) = Ok es ->
+  (TracksCyc.validate_tracklets es (labelled (nodes_of (d_frames d))) = Ok (true, []) <-> no_single_child (table_of d)).
+Proof. exact CtcCycLemmas.ctc_full_validator_iff. Qed.
+Print Assumptions C15_tracklets_full_validator.
